@@ -7,11 +7,16 @@
    make_jvp_reversemode equals forward mode's J v; the tensor-Jacobian product
    is the left contraction.  hessian / hvp / ggnvp are these operators applied
    to J := Hessian resp. composed (definitions in Operators.v), decided exactly
-   against polynomial maps by the correspondence run, as are the argnum
-   algebra and the pass-through of extra arguments. *)
+   against polynomial maps by the correspondence run.  The ground truth of that
+   run is itself proved (PolyDeriv.v): for every quadratic polynomial map the
+   formal Jacobian/Hessian are the derivatives of the value map (exact Taylor
+   identity), hessian is the Jacobian of the gradient and symmetric, hvp is the
+   displacement of the gradient.  The argument-selection algebra (Argnum.v):
+   unary_to_nary/subvals substitute only the selected positions, for every arity
+   and position list; the restriction to position i has Jacobian column i. *)
 From Coq Require Import List Arith ZArith Ring.
 Import ListNotations.
-From AG Require Import Operators Run16.
+From AG Require Import Operators Run16 PolyDeriv Argnum RunArg.
 
 Section OperatorLaws.
   Variable K : Type.
@@ -40,11 +45,65 @@ Section OperatorLaws.
   Proof. exact (tjp_is_contraction K k0 kadd kmul m n J vec j). Qed.
 End OperatorLaws.
 
+
+(* the ground truth: f(x + t v) = f(x) + t J(x) v + t^2 Q(v), exactly, for every quadratic polynomial map *)
+Theorem C16_formal_jacobian_is_the_derivative :
+  forall (p : poly) (x y : list Z) (v : nat -> Z) (t : Z) (i : nat),
+    (forall j, j < pn p -> zn y j = (zn x j + t * v j)%Z) ->
+    evalf p y i = (evalf p x i + t * zsum (pn p) (fun j => Jp p x i j * v j) + t * t * Qp p v i)%Z.
+Proof. exact taylor_along_a_line. Qed.
+
+(* hessian is the Jacobian of the gradient map, whose entries are the (symmetric) second partial derivatives *)
+Theorem C16_hessian_is_jacobian_of_gradient :
+  forall (p : poly) (x y : list Z) (v : nat -> Z) (i j : nat),
+    (forall k, k < pn p -> zn y k = (zn x k + v k)%Z) ->
+    Jp p y i j = (Jp p x i j + zsum (pn p) (fun k => Hp p i j k * v k))%Z.
+Proof. exact gradient_displacement. Qed.
+
+Theorem C16_hessian_entries :
+  forall (p : poly) (x : list Z) (j k : nat), j < pn p -> k < pn p ->
+    nth (j * pn p + k) (expected p x OHess) 0%Z = Hp p 0 j k
+    /\ nth (j * pn p + k) (expected p x OHess) 0%Z = nth (k * pn p + j) (expected p x OHess) 0%Z.
+Proof. exact hessian_entries_are_second_partials. Qed.
+
+Theorem C16_hvp_is_gradient_displacement :
+  forall (p : poly) (x y v : list Z) (j : nat), j < pn p ->
+    (forall k, k < pn p -> zn y k = (zn x k + zn v k)%Z) ->
+    nth j (expected p x (OHvp v)) 0%Z = (Jp p y 0 j - Jp p x 0 j)%Z.
+Proof. exact hvp_is_gradient_displacement. Qed.
+
+(* selecting arguments by position: only the selected positions are substituted, the others are untouched, and at the
+   point of differentiation the function sees the original call *)
+Theorem C16_argnum_substitutes_only_the_selected_positions :
+  forall (A : Type) (d : A) (x : list A) (idx : list nat) (xs : list A),
+    (forall j, ~ In j idx -> nth j (subvals A x (combine idx xs)) d = nth j x d)
+    /\ (NoDup idx -> length xs = length idx -> (forall i, In i idx -> i < length x) ->
+        forall k, k < length idx -> nth (nth k idx 0) (subvals A x (combine idx xs)) d = nth k xs d)
+    /\ subvals A x (combine idx (map (fun i => nth i x d) idx)) = x.
+Proof.
+  intros A d x idx xs. split; [|split].
+  - intros j Hj. exact (subvals_other A d x idx xs j Hj).
+  - intros H1 H2 H3 k Hk. exact (subvals_at A d x idx xs k H1 H2 H3 Hk).
+  - exact (subvals_self A d x idx).
+Qed.
+
+(* ... and the derivative of the restriction to position i is column i of the Jacobian *)
+Theorem C16_argnum_selects_the_jacobian_column :
+  forall (p : poly) (x : list Z) (i r : nat) (h : Z), i < pn p -> i < length x ->
+    evalf p (subval Z x i (zn x i + h)%Z) r = (evalf p x r + h * Jp p x r i + h * h * b_ p r i i)%Z.
+Proof. exact restriction_derivative. Qed.
+
 Print Assumptions C16_jacobian_entries_and_shape.
 Print Assumptions C16_grad_is_the_row.
 Print Assumptions C16_elementwise_grad_sums_outputs.
 Print Assumptions C16_reverse_mode_jvp_equals_forward.
 Print Assumptions C16_tensor_jacobian_product.
+Print Assumptions C16_formal_jacobian_is_the_derivative.
+Print Assumptions C16_hessian_is_jacobian_of_gradient.
+Print Assumptions C16_hessian_entries.
+Print Assumptions C16_hvp_is_gradient_displacement.
+Print Assumptions C16_argnum_substitutes_only_the_selected_positions.
+Print Assumptions C16_argnum_selects_the_jacobian_column.
 
 Example C16_example :
   let p := {| pm := 2; pn := 2; pc := [1; 0]%Z; pA := [[1; 2]; [0; 3]]%Z;
